@@ -27,6 +27,8 @@ def gen_unit(r, n):
             mode = r.random()
             if mode < 0.45:      # exactly on a bin edge (both sides of zero, far outside too)
                 x = l + r.randint(-12, 40) * w
+            elif mode < 0.52:    # in the open strip one bin wide below the lower boundary (floor -1, truncation 0)
+                x = l - r.randint(1, 7) * w / 8
             elif mode < 0.6:     # just next to an edge
                 x = l + r.randint(-12, 40) * w + r.choice([-1, 1]) * 2.0 ** -10
             else:
@@ -224,6 +226,8 @@ def gen_hist(r, k):
                 z = v["lower"] + r.randint(-2, v["nx"] + 2) * v["w"]
             elif m < 0.85:   # inside the grid
                 z = v["lower"] + r.randint(0, v["nx"] * 8 - 1) * v["w"] / 8 + v["w"] / 16
+            elif m < 0.93 and not v["periodic"]:   # just outside: within two bin widths of either boundary
+                z = (v["lower"] - r.randint(1, 15) * v["w"] / 8) if r.random() < 0.6 else (v["lower"] + span + r.randint(0, 15) * v["w"] / 8)
             else:            # outside
                 z = v["lower"] + r.choice([-1, 1]) * (span + r.randint(1, 40) * v["w"] / 8) + (span if r.random() < .5 else 0)
             if v["periodic"] and r.random() < 0.5:
@@ -538,9 +542,12 @@ def gen_vec_hist(r, k):
             cs = []
             for _ in range(size):
                 q = r.random()
-                if q < 0.35:
+                if q < 0.3:       # on a bin edge, including both boundaries and edges outside
                     cs.append(v["lower"] + r.randint(-2, v["nx"] + 2) * v["w"])
-                elif q < 0.85:
+                elif q < 0.45:    # just outside, less than two bin widths below the lower / above the upper boundary
+                    cs.append(v["lower"] - r.randint(1, 15) * v["w"] / 8 if r.random() < 0.6
+                              else v["lower"] + v["w"] * v["nx"] + r.randint(0, 15) * v["w"] / 8)
+                elif q < 0.88:
                     cs.append(v["lower"] + r.randint(0, v["nx"] * 8 - 1) * v["w"] / 8 + v["w"] / 16)
                 else:
                     cs.append(v["lower"] + r.choice([-1, 1]) * (v["w"] * v["nx"] + r.randint(1, 40) * v["w"] / 8))
@@ -742,7 +749,7 @@ def check(run):
                 os.remove(f)
     check_meta_states(run, V.rng("C15meta"), vsim, d, 6 if quick else 60)
     if check_vector_histogram(run, vsim, d):
-        check_vector_scenarios(run, V.rng("C15vec"), vsim, model, d, 20 if quick else 300)
+        check_vector_scenarios(run, V.rng("C15vec"), vsim, model, d, 30 if quick else 400)
     run.cov["correspondence"].update({"unit_cases": len(cases), "hist_scenarios": len(hcases)})
 
 
